@@ -28,7 +28,10 @@ func (c *wsNetConn) Write(b []byte) (n int, err error) {
 }
 
 func (c *wsNetConn) Close() error {
-	panic("unimplemented")
+	// called by websocket.Upgrader when the handshake fails after hijacking
+	// (e.g. when the client sends data before the handshake is complete).
+	// The underlying connection is closed by ServerConn.
+	return nil
 }
 
 func (c *wsNetConn) LocalAddr() net.Addr {
